@@ -578,6 +578,15 @@ func (p *Prog) resolveUp(v ssa.Value) ssa.Value {
 			}
 		case *ssa.Parameter:
 			fn := x.Parent()
+			if nil != fn && nil != fn.Parent() {
+				/* A function literal handed to a module function which
+				calls it: what that function passes. */
+				if a := closureParamSource(x); nil != a {
+					v = a
+					continue
+				}
+				return v
+			}
 			if nil == fn || nil != fn.Parent() || !inModule(fn) || ast.IsExported(fn.Name()) {
 				return v
 			}
@@ -609,4 +618,153 @@ func fieldBehind(v ssa.Value) (*types.Var, ssa.Value) {
 		v = n
 	}
 	return loadedField(v)
+}
+
+// constByteSlice: the bytes of a []byte whose contents are fixed where it is
+// written: []byte("…") of a constant, or a slice literal of constants.
+func constByteSlice(v ssa.Value) ([]byte, bool) {
+	v = resolveCell(v)
+	if cv, ok := v.(*ssa.Convert); ok {
+		if s, ok := constString(cv.X); ok {
+			return []byte(s), true
+		}
+	}
+	if s, ok := constString(v); ok {
+		return []byte(s), true
+	}
+	arr, ok := literalArray(v)
+	if !ok {
+		return nil, false
+	}
+	el, ok := literalElems(arr)
+	if !ok {
+		return nil, false
+	}
+	/* Nothing else writes the array. */
+	for _, ref := range *arr.Referrers() {
+		switch ref.(type) {
+		case *ssa.IndexAddr, *ssa.Slice, *ssa.DebugRef:
+		default:
+			return nil, false
+		}
+	}
+	out := make([]byte, len(el))
+	for k, e := range el {
+		c, ok := constInt(e)
+		if !ok || k < 0 || int(k) >= len(out) {
+			return nil, false
+		}
+		out[k] = byte(c)
+	}
+	return out, true
+}
+
+// literalArray: the local backing array of a slice literal []T{…} (the whole
+// array sliced), or of an array literal.
+func literalArray(v ssa.Value) (*ssa.Alloc, bool) {
+	if sl, ok := v.(*ssa.Slice); ok && nil == sl.Low && nil == sl.High {
+		v = sl.X
+	}
+	arr, ok := v.(*ssa.Alloc)
+	if !ok {
+		return nil, false
+	}
+	if _, isArr := arr.Type().Underlying().(*types.Pointer).Elem().Underlying().(*types.Array); !isArr {
+		return nil, false
+	}
+	return arr, true
+}
+
+// closureParamSource: x is a parameter of a function literal which is made
+// once and handed, once, to a module function G(…, f, …) which calls f in one
+// place with, in x's position, one of G's own parameters: the argument the
+// maker passes to G there (eg.GoContext(ectx, func(c context.Context) error
+// {…}): c is ectx).  nil when any of this is not so.
+func closureParamSource(x *ssa.Parameter) ssa.Value {
+	fn := x.Parent()
+	idx := paramIndex(fn, x)
+	if idx < 0 || nil == fn.Parent() {
+		return nil
+	}
+	var mcs []*ssa.MakeClosure
+	eachInstr(fn.Parent(), func(i ssa.Instruction) {
+		if mc, ok := i.(*ssa.MakeClosure); ok && mc.Fn == ssa.Value(fn) {
+			mcs = append(mcs, mc)
+		}
+	})
+	if 1 != len(mcs) {
+		return nil
+	}
+	/* Its one use as an argument. */
+	var site *ssa.CallCommon
+	argAt := -1
+	n := 0
+	var uses func(v ssa.Value, depth int)
+	uses = func(v ssa.Value, depth int) {
+		if depth > 3 || nil == v.Referrers() {
+			return
+		}
+		for _, r := range *v.Referrers() {
+			switch y := r.(type) {
+			case *ssa.DebugRef:
+			case *ssa.ChangeType:
+				uses(y, depth+1)
+			case ssa.CallInstruction:
+				n++
+				for k, a := range y.Common().Args {
+					if a == v {
+						site, argAt = y.Common(), k
+					}
+				}
+			default:
+				n += 2
+			}
+		}
+	}
+	uses(mcs[0], 0)
+	if 1 != n || nil == site {
+		return nil
+	}
+	g := site.StaticCallee()
+	if nil == g || nil == g.Blocks || !inModule(g) || argAt >= len(g.Params) || len(g.Params) != len(site.Args) {
+		return nil
+	}
+	gp := g.Params[argAt]
+	var calls []*ssa.CallCommon
+	other := false
+	for _, f := range withAnons(g) {
+		eachInstr(f, func(i ssa.Instruction) {
+			var ops []*ssa.Value
+			for _, o := range i.Operands(ops) {
+				if nil == *o || resolveFree(resolveCell(stripConv(*o, false))) != ssa.Value(gp) {
+					continue
+				}
+				switch y := i.(type) {
+				case *ssa.DebugRef, *ssa.MakeClosure, *ssa.Store, *ssa.UnOp, *ssa.ChangeType:
+					/* captured, spilled or re-read: followed by the resolution above */
+				case ssa.CallInstruction:
+					if resolveFree(resolveCell(stripConv(y.Common().Value, false))) == ssa.Value(gp) && !y.Common().IsInvoke() {
+						calls = append(calls, y.Common())
+					} else {
+						other = true
+					}
+				default:
+					other = true
+				}
+			}
+		})
+	}
+	if other || 1 != len(calls) || idx >= len(calls[0].Args) {
+		return nil
+	}
+	a := resolveFree(resolveCell(stripConv(calls[0].Args[idx], false)))
+	ap, ok := a.(*ssa.Parameter)
+	if !ok || ap.Parent() != g {
+		return nil
+	}
+	m := paramIndex(g, ap)
+	if m < 0 || m >= len(site.Args) {
+		return nil
+	}
+	return site.Args[m]
 }
